@@ -187,6 +187,14 @@ def run_case(case):
     spec = gen.fault_world(rng, prefix, nlayers=(1, 3), tests=(1, 4),
                            p_bad=0.35, p_import_fault=0.12)
     plan = gen.layer_fault_plan(rng, spec, p_su=0.08, p_td=0.1)
+    ncount = 0
+    if rng.random() < 0.2:
+        # test case objects that stand for several cases each
+        # (countTestCases() > 1): "tests run" counts the cases
+        for tid, ts, layer, lvl, m, node in vworld.iter_tests(spec):
+            if ts['kind'] != 'skip_deco' and rng.random() < 0.4:
+                ts['count'] = rng.choice([2, 3, 5])
+                ncount += 1
     opts = {'verbose': rng.randint(0, 3)}
     if rng.random() < 0.25:
         opts['repeat'] = rng.choice([2, 2, 3])
@@ -220,6 +228,7 @@ def run_case(case):
             V('run-aborted', 'run-raised', tb=(ws.raised_tb or '')[-700:])
             return {'viol': viol, 'evals': 1, 'counters': counters}
         viol.extend(ws.cviol[:2])
+        C('multi_case_test_objects', ncount)
         T, nran = judge(ws, spec, plan, opts, 'seq', V, C, truth)
         multi = sum(1 for tid, (ts, l, m, n) in T.tests.items()
                     if sum(vworld.outcome_events(ts)) > 1)
